@@ -54,6 +54,9 @@ def run(F, X, rep):
     import rules_lc as R
     C = R.Ctx.get(F, X)
     import p_c19
+    import rules_hh as HHq
+    import rules_lc as Rq
+    HHq.q_request_fields_verbatim(Rq.Ctx.get(F, X), rep, "C12-Q")
     p_c19.i_params_immutable(F, X, rep, "C12-P")
     # "the node's configured base fee, proportional fee and CLTV delta": the three policy options are what reaches the policy
     mb = p_c19.main_body(F)
